@@ -300,6 +300,36 @@ def job_mm(job, out):
     return res
 
 
+def job_mm_same_path(job, out):
+    """two translations in THIS process from ONE path string whose content differs: either the file is overwritten in between
+    (absolute path), or the same relative path is used from two working directories.  Each must give the files of the
+    database that is at that path at the time of the call."""
+    base = os.path.join(out, 'samepath')
+    shutil.rmtree(base, ignore_errors=True)
+    d1, d2 = os.path.join(base, 'one'), os.path.join(base, 'two')
+    os.makedirs(d1)
+    os.makedirs(d2)
+    cwd = os.getcwd()
+    res = {}
+    try:
+        if job.get('relative'):
+            open(os.path.join(d1, 'db.mm'), 'w').write(job['a'])
+            open(os.path.join(d2, 'db.mm'), 'w').write(job['b'])
+            os.chdir(d1)
+            res['first'] = job_mm({'path': 'db.mm', 'target': job['target']}, out)
+            os.chdir(d2)
+            res['second'] = job_mm({'path': 'db.mm', 'target': job['target']}, out)
+        else:
+            path = os.path.join(d1, 'db.mm')
+            open(path, 'w').write(job['a'])
+            res['first'] = job_mm({'path': path, 'target': job['target']}, out)
+            open(path, 'w').write(job['b'])
+            res['second'] = job_mm({'path': path, 'target': job['target']}, out)
+    finally:
+        os.chdir(cwd)
+    return res
+
+
 # ---- finalize dump -----------------------------------------------------------------------------
 
 def job_finalize(job, out):
@@ -396,6 +426,8 @@ def main():
                 r = job_incr(job, out)
             elif t == 'mm':
                 r = job_mm(job, out)
+            elif t == 'mm_same_path':
+                r = job_mm_same_path(job, out)
             elif t == 'finalize':
                 r = job_finalize(job, out)
             elif t == 'metavars':
